@@ -53,7 +53,7 @@ UVal(P, st, c, k) ==
 
 \* --- VHCT's per-cell threshold  tau = ceil( X * Y ),
 \*   X = var + 3 b nu rho^h + sqrt(var^2 + 2 var 3 b nu rho^h)      (fixed point, S units; nb[h+1] = S 3 b nu rho^h)
-\*   Y = c^2 ln(1/delta~) rho^(-2h) / nu^2                           (tauy[k+1][h+1] = S Y, capped)
+\*   Y = c^2 ln(1/delta~) rho^(-2h) / nu^2                           (tauy[k+1][h+1] = <<m, e>>, S Y ~ m 2^e, 2^14 <= m < 2^15)
 \* evaluated with shifted operands so that nothing leaves 31 bits; result exact to about 2^-13
 RECURSIVE ShiftDown(_, _)
 ShiftDown(x, e) == IF x < 32768 THEN <<x, e>> ELSE ShiftDown(x \div 2, e + 1)
@@ -66,13 +66,12 @@ TauVEst(P, st, c, k) ==
       v  == st.var[c]
       nb == P.nb[h + 1]
       X  == v + nb + ISqrtProd(v, v + 2 * nb)
-      Y  == P.tauy[k + 1][h + 1]
+      sy == P.tauy[k + 1][h + 1]
       sx == ShiftDown(X, 0)
-      sy == ShiftDown(Y, 0)
-      m  == sx[1] * sy[1]                       \* X*Y ~ m * 2^e
-      e  == sx[2] + sy[2] - 2 * P.sexp          \* tau ~ m * 2^e
-  IN IF Y >= 1500000000 THEN 1900000000
-     ELSE IF e >= 0 THEN (IF e >= 10 \/ m >= 1000000 THEN 1900000000 ELSE m * (2 ^ e))
+      m  == sx[1] * sy[1]                       \* X * (S Y) ~ m * 2^(sx[2] + sy[2]),  m < 2^30
+      e  == sx[2] + sy[2] - 2 * P.sexp          \* tau = X Y / S ... in units: (X/S) * Y = X * (S Y) / S^2 ~ m * 2^e
+  IN IF e >= 0 THEN (IF e >= 20 THEN 1900000000 ELSE IF m >= 1900000000 \div (2 ^ e) THEN 1900000000 ELSE m * (2 ^ e))
+     ELSE IF -e >= 31 THEN 1
      ELSE (m + (2 ^ (-e)) - 1) \div (2 ^ (-e))
 TauVClose(obs, est) ==
   IF est >= 1000000 THEN obs >= 500000
